@@ -98,6 +98,20 @@ class OneShot:
         return 'OneShot(...)'
 
 
+@T.runtime_checkable
+class Proto(T.Protocol):
+    def meth(self) -> int: ...
+
+
+class Impl:
+    """implements Proto structurally"""
+    def meth(self) -> int:
+        return 1
+
+    def __repr__(self):
+        return 'Impl()'
+
+
 # user predicates of Is[...]: SAME table as predTable in lean/BearVerif/Driver/Bear.lean
 PRED_FUNCS = [
     lambda x: True,
@@ -126,7 +140,7 @@ NT_LIST = T.NewType('NT_LIST', list)
 
 LEAF_HASHABLE = [int, str, bool, float, type(None), None, T.Literal[1, 'a'], T.Literal[True], T.Literal[0, None],
                  TV_BOUND, NT_INT, T.Optional[int], int | str]
-LEAF_OTHER = [U0, U1, object, T.Any, type[int], type[U0], type[T.Any], A.Iterator[int], A.Callable[[int], str],
+LEAF_OTHER = [Proto, U0, U1, object, T.Any, type[int], type[U0], type[T.Any], A.Iterator[int], A.Callable[[int], str],
               A.Generator[int, None, None], A.ItemsView[str, int], T.List, TV_FREE, TV_CONSTR, NT_LIST, list, dict,
               complex, bytes, A.Hashable, A.Sized]
 
@@ -237,7 +251,7 @@ class HintGen:
         raise AssertionError(k)
 
 
-LEAF_OBJECTS = [0, 1, -3, 7, True, False, 'a', 'ab', '', None, 2.5, 1j, b'x', U0(x=1), U1(x=0, y='ab'), U2(), int, U1, str,
+LEAF_OBJECTS = [Impl(), 0, 1, -3, 7, True, False, 'a', 'ab', '', None, 2.5, 1j, b'x', U0(x=1), U1(x=0, y='ab'), U2(), int, U1, str,
                 U0(x=U1(y=1), z=[1]), len]
 
 
@@ -411,6 +425,7 @@ class ObjGen:
         table = {int: lambda: r.choice([0, 1, -3, 7, True]), bool: lambda: r.choice([True, False]),
                  str: lambda: r.choice(['a', 'ab', '']), float: lambda: 2.5, complex: lambda: 1j,
                  bytes: lambda: b'x', list: lambda: [1, 'a'][:self.size()], dict: lambda: {'a': 1},
+                 Proto: lambda: Impl(),
                  U0: lambda: r.choice([U0(x=1), U1(x=0, y='ab'), U2()]), U1: lambda: U1(x=2),
                  A.Hashable: lambda: r.choice([1, 'a', (1,)]), A.Sized: lambda: r.choice([[1], 'ab', {1: 2}])}
         f = table.get(c)
